@@ -224,9 +224,34 @@ func c20Literal(w *core.W, in []byte, entry string) {
 	}
 }
 
+// c20Pairs: the answer for y must not depend on the literal guessed before it.
+func c20Pairs(w *core.W) {
+	lits := []string{`1`, `1.0`, `0.00`, `-7.0`, `1.5`, `1e2`, `25E-1`, `1.0e1`, `"a.b"`, `"1e5"`, `"x"`, `true`, `null`, `{`, `[`, `x`, `-0`, `1.`, ``}
+	alone := map[string]string{}
+	for _, y := range lits {
+		t, err := schema.GuessSchemaType([]byte(y))
+		alone[y] = fmt.Sprintf("%s|%v", t, err != nil)
+	}
+	for _, x := range lits {
+		for _, y := range lits {
+			for _, z := range lits[:6] {
+				w.S.Evaluations++
+				schema.GuessSchemaType([]byte(x))
+				schema.GuessSchemaType([]byte(z))
+				t, err := schema.GuessSchemaType([]byte(y))
+				if got := fmt.Sprintf("%s|%v", t, err != nil); got != alone[y] {
+					w.Violate(bv("guess-independent-of-history", "pairs", []byte(x+" ; "+z+" ; "+y), fmt.Sprintf("GuessSchemaType(%q) = %s after guessing %q and %q, %s when asked first", y, got, x, z, alone[y]), nil))
+					return
+				}
+			}
+		}
+	}
+}
+
 func c20Run(w *core.W) {
 	if w.Shard == 0 {
 		c20Vocabulary(w)
+		c20Pairs(w)
 	}
 	e := &seq.Enum{Tokens: c20Tokens, N: c20N(w.Tier), W: w}
 	e.Run(func(s []byte, ntok int, own bool) bool {
@@ -253,6 +278,8 @@ func c20Replay(w *core.W, v *core.Violation) {
 		c20ValidCase(w, name, names[name])
 	case "token-types-agree":
 		c20Vocabulary(w)
+	case "guess-independent-of-history":
+		c20Pairs(w)
 	default:
 		c20Literal(w, inputBytes(v), v.Entry)
 	}
